@@ -29,9 +29,10 @@ RULE = ("('exhaustive' in the thorough evidence refers to the enumerated sub-dom
         "oligo and Na log-uniform over the ranges, Mg = 0 (30%), log-uniform 1e-9..0.1 (35%), log-uniform 1e-5..0.1 (21%) or "
         "uniform (14%). Judged monotonicity: every two points on a common axis line of a grid case and every ordered pair of a pt case: "
         "never decreasing, strictly increasing when the separation is >= 1e-9; in a grid case all pairs on a common axis line "
-        "(not only neighbours) are judged. non-trivial = sequence of length >= 2 "
-        "(at least one neighbour pair) and, for grid cases, >= 2 grid points; distinct by case text. Sequences with other "
-        "letters, the empty sequence and concentrations outside the ranges are run for correspondence only (not judged).")
+        "(not only neighbours) are judged. non-trivial = for grid cases >= 2 grid points (every judged case has a sequence of length >= 2, i.e. at least one "
+        "neighbour pair); distinct by case text. Outside the quantifier, run for correspondence only (not judged, differences "
+        "counted as drift): sequences with other letters, the empty sequence, a single letter (the quantifier starts at "
+        "length 2), concentrations outside the ranges.")
 EXHAUSTIVE = {"quick": False, "thorough": True}
 TRUSTED_BASE = [
     "IEEE-754 binary64 and math.Log: the theorems are about exact real arithmetic (Mathlib Real.log); the Float instance of "
